@@ -430,7 +430,8 @@ package core
 //@ pred parentOK(d *directive.Directive) := imp(!directive.rootSpec(d.type_), d.Parent != nil && directive.dirOK(d.Parent))
 //@ pred setterFailed(core *JApiCore, c0 *catalog.Catalog, n0 int) := core.catalog == c0 && c0.gFailed > n0
 
-// the description text: trimming and un-indenting (C01: no index leaves its slice)
+// the description text: trimming and un-indenting (C01: no index leaves its slice; C06: the bytes it is given are a window
+// into the project file, it must not write them - a later build of the same file would see another project)
 //@ extern bytes.ReplaceAll(s, old, new)
 //@   attr pure deterministic nopanic
 //@ extern bytes.TrimLeft(s, cutset)
@@ -451,14 +452,14 @@ package core
 //@ extern bytes.HasPrefix(s, prefix)
 //@   attr pure deterministic nopanic
 //@ func description(b)
-//@   property C01
-//@   modifies nothing
+//@   property C01,C06
+//@   modifies[C01,C06,@input-bytes-untouched] nothing
 //@ func descriptionRemoveParentheses(b)
-//@   property C01
-//@   modifies nothing
+//@   property C01,C06
+//@   modifies[C01,C06,@input-bytes-untouched] nothing
 //@ func longestWhitespacePrefix(bb)
-//@   property C01
-//@   modifies nothing
+//@   property C01,C06
+//@   modifies[C01,C06,@input-bytes-untouched] nothing
 //@ func longestWhitespacePrefix loop 2
 //@   invariant len(prefix) >= 1
 //@ func longestWhitespacePrefix loop 3
